@@ -728,17 +728,29 @@ def _find_path(paths, env):
     return None
 
 
+CONCRETE_FAILS = []
+
+
 def translator_validation(ob, paths, rng, assume_syms):
     """concrete run vs symbolic result evaluated at the same point"""
     done = 0
     problems = []
     tries = 0
+    CONCRETE_FAILS.clear()
     while done < ob.tv_points and tries < ob.tv_points * 6:
         tries += 1
         vals = _random_point(ob, rng)
         cr = ConcreteRun(ob, vals)
         if not cr.assume_ok:
             continue
+        # the validation points double as concrete tests of the REAL code: a claim that fails here is a genuine counterexample (found by
+        # sampling, not by the solver -- reported as such), typically where the symbolic model and the real code diverge
+        if cr.exc is None and cr.claims is not None:
+            for c_c in cr.claims:
+                okc, dc = c_c.concrete_ok(slack=10.0) if isinstance(c_c, Eq) else c_c.concrete_ok()
+                if not okc:
+                    CONCRETE_FAILS.append((dict(vals), c_c.label, f"claim '{c_c.label}' fails concretely: {dc}"))
+                    break
         env = Env(vals)
         p = _find_path(paths, env)
         if p is None:
@@ -931,6 +943,10 @@ def run_obligation(ob, seed=0, tier="quick", collect_functions=True):
         if paths and not res["violations"] and ob.tv_points > 0:
             ndone, problems = translator_validation(ob, paths, rng, assume_f)
             res["tv_points"] = ndone
+            for vals_, label_, detail_ in CONCRETE_FAILS[:2]:
+                res["violations"].append({"label": label_, "inputs": {k: str(v) for k, v in vals_.items()}, "trace": [],
+                                          "detail": "found at a translator-validation point (sampling; the symbolic model and the real code diverge "
+                                                    "here), reproduced on the real code: " + detail_})
             if ndone == 0:
                 # fall back to a solver model of the assumptions of the first ok path
                 for p in paths:
@@ -1253,6 +1269,11 @@ def build_evidence(prop, tier, seed, results, extra, wall, n_viol, level, known_
         ] + [f"stub: {s}" for s in stubs],
         "wall_s": round(wall, 2), "violations": n_viol,
     }
+    if level == "translation_validation":
+        # the level's own keys: one "program" = one obligation/configuration in which the library routine is compared with the reference
+        # formulation over the same uninterpreted operations; disagreements found are replayed before being reported
+        ev["coverage"]["programs"] = max(1, n_ob)
+        ev["coverage"]["disagreements_checked"] = n_viol
     return ev
 
 
